@@ -60,6 +60,8 @@ func (o storeOp) String() string {
 	switch o.kind {
 	case "blob":
 		return fmt.Sprintf("upload blob g%d", o.gguf)
+	case "blob-mismatch":
+		return fmt.Sprintf("upload the content of an existing blob (#%d) under another digest", o.extra)
 	case "create":
 		return fmt.Sprintf("create %s from file g%d (variant %d)", o.name, o.gguf, o.extra)
 	case "create-from":
@@ -138,6 +140,10 @@ func drawStoreOp(existing []string, allowRestart bool) storeOp {
 	switch {
 	case k < 2:
 		op.kind, op.gguf = "blob", d("op-gguf", 4)
+		if d("op-blob-mismatch", 3) == 0 {
+			// a client that announces the wrong digest for content the store already has
+			op.kind, op.extra = "blob-mismatch", d("op-blob-which", 64)
+		}
 	case k < 6:
 		op.kind, op.name, op.gguf, op.extra = "create", drawOpName(), d("op-gguf", 4), d("op-variant", 8)
 		if d("op-dst-existing", 4) == 0 {
@@ -194,6 +200,24 @@ func (w *storeWorld) doOp(ctx context.Context, op storeOp) apiResult {
 	case "blob":
 		b := ggufBytes(op.gguf)
 		return w.call(ctx, "POST", "/api/blobs/"+sha256Digest(b), b)
+	case "blob-mismatch":
+		ents, _ := os.ReadDir(filepath.Join(w.dir, "blobs"))
+		var files []string
+		for _, e := range ents {
+			if strings.HasPrefix(e.Name(), "sha256-") && len(e.Name()) == 71 {
+				files = append(files, e.Name())
+			}
+		}
+		if len(files) == 0 {
+			return apiResult{code: 204}
+		}
+		sort.Strings(files)
+		b, err := os.ReadFile(filepath.Join(w.dir, "blobs", files[op.extra%len(files)]))
+		if err != nil {
+			return apiResult{code: 204}
+		}
+		verifsim.Probe("blob_upload_wrong_digest")
+		return w.call(ctx, "POST", "/api/blobs/"+sha256Digest(append([]byte("not this: "), b...)), b)
 	case "create":
 		b := ggufBytes(op.gguf)
 		if r := w.call(ctx, "POST", "/api/blobs/"+sha256Digest(b), b); !r.ok() {
